@@ -71,7 +71,15 @@ class MapObj(Tok):
                 self.registered.append((sig, fn))
 
             return Builtin("map.register", register)
-        return super().py_getattr(I, name)
+        if name in self.attrs:
+            return self.attrs[name]
+
+        def unknown(I, *a, **k):  # a method the contract does not know (added by a change): it may do anything to the table
+            self.world.event(I, f"map.{name}")
+            self.registered = [("unknown-state", Tok(f"after map.{name}"))]
+            return None
+
+        return Builtin(f"map.{name}", unknown)
 
 
 class DispatchFn(Tok):
@@ -81,6 +89,13 @@ class DispatchFn(Tok):
         super().__init__("dispatch", __code__="TRAMPOLINE", __kwdefaults__=None, __annotations__=None, __defaults__=None, __doc__=None, map=None)
         self.ov = ov
         self.attrs["__globals__"] = GlobalsObj()
+
+    def py_getattr(self, I, name):
+        if name in self.attrs:
+            return self.attrs[name]
+        if name in ("register", "resolve", "copy", "variant", "add_mixins", "unregister", "next", "display_methods", "display_resolution"):
+            return I.getattr(self.ov, name)  # core.py bootstrap_dispatch: dispatch.<name> = ov.<name>
+        raise OutOfSubset(f"dispatch.{name}")
 
 
 class GlobalsObj(SymObj):
@@ -206,6 +221,8 @@ class CoreWorld(World):
     def adapt_function(self, I, fn, ovld, newname):
         self.event(I, "adapt_function")
         self._maybe_fail(I, "adapt_function", "UsageError")
+        if getattr(self, "bad_fn", None) is not None and fn is self.bad_fn:  # an invalid method: adapting it always fails
+            raise PyRaise(ExcV("UsageError", tag="invalid method"))
         return Tok("adapted", orig=fn, ovld=ovld)
 
     def replace(self, I, obj, **kw):
@@ -249,6 +266,13 @@ class SignatureCls(SymObj):
 def mk_ovld(w, label, mixins=(), linkback=False, compiled=None, locked=None, defns=None, I=None):
     o = OvldObj(label)
     w.ovlds.append(o)
+    # the object is constructed by the REAL Ovld.__init__ (so that every field the class maintains exists, with the
+    # value the constructor gives it); the harness then puts it into the state the task quantifies over
+    ev, lg, ia = w.events, list(w.log), w.interrupt_at
+    w.interrupt_at = None
+    I.call_repo("core:Ovld.__init__", [o], {"mixins": list(mixins), "name": label, "linkback": linkback})
+    w.events, w.interrupt_at = ev, ia
+    w.log[:] = lg
     o.f.update(
         id=len(w.ovlds),
         _compiled=compiled if compiled is not None else ZV(I.fresh(f"compiled_{label}", z3.BoolSort()), "bool"),
@@ -263,9 +287,6 @@ def mk_ovld(w, label, mixins=(), linkback=False, compiled=None, locked=None, def
         mixins=list(mixins),
         argument_analysis=Tok("ArgumentAnalyzer"),
     )
-    for m in mixins:
-        if linkback:
-            m.f["children"].append(o)
     return o
 
 
@@ -361,6 +382,34 @@ def t_defns(gname):
     return build
 
 
+def t_defns_history(gname, at):
+    """C16/C17: `defns` is a function of the CURRENT tables.  History: every node's effective table is read once
+    (nothing is in use, nothing locked), then node `at` registers a new method, then every node is read again: each
+    must equal the fold of its parents' current tables overlaid by its own (DESIGN A.3), whatever was read before."""
+
+    def build():
+        w = CoreWorld()
+        install_common(w)
+
+        def thunk(I):
+            w.reset()
+            objs = build_graph(I, w, gname, locked=False, compiled=False)
+            for o in objs.values():
+                I.getattr(o, "defns")
+            node = objs[list(objs)[at]]
+            sig = SigTok("s9")
+            fn = user_fn("newfn", sig)
+            I.call_repo("core:Ovld._register", [node, fn, 0], {})
+            for o in objs.values():
+                got = I.getattr(o, "defns")
+                want = spec_defns(o)
+                I.require(isinstance(got, dict) and list(got.keys()) == list(want.keys()) and all(got[k_] is want[k_] for k_ in want), f"effective_table_follows_the_current_tables_after_a_change_to[{node.label}]_seen_from[{o.label}]")
+
+        return w, thunk, {"graph": gname, "at": at}
+
+    return build
+
+
 def t_modify_guard(op, gname="child"):
     """lock/_attempt_modify: every mutator refuses (raises) iff the Ovld is locked, before changing anything."""
 
@@ -398,7 +447,7 @@ def t_modify_guard(op, gname="child"):
     return build
 
 
-def t_register_frame(gname):
+def t_register_frame(gname, which="own"):
     """_register on a node: only that node (and, through _update, its linked descendants) change; no parent or
     sibling is touched (C16); the new method replaces an identical signature, the old holder is pushed down (C02)."""
 
@@ -412,8 +461,11 @@ def t_register_frame(gname):
             labels = list(objs)
             target = objs[labels[-1]] if gname not in ("siblings",) else objs["c2"]
             before = snapshot_all(w)
-            old_holder = target.f["_defns"].get(SigTok("s1"))
-            fn = user_fn("newfn", SigTok("s1"))
+            # which="own": the signature is already in the node's OWN table; "inherited": only a parent holds it
+            the_sig = SigTok("s1") if which == "own" else next(s_ for s_ in spec_defns(target) if s_ not in target.f["_defns"])
+            own_before = dict(target.f["_defns"])
+            old_holder = own_before.get(the_sig)
+            fn = user_fn("newfn", the_sig)
             I.call_repo("core:Ovld._register", [target, fn, 0], {})
             after = snapshot_all(w)
 
@@ -428,18 +480,26 @@ def t_register_frame(gname):
             allow = {(target.label, "*")} | {(d.label, "*") for d in descendants(target)} | {(m.label, "_locked") for n in [target] + descendants(target) for m in n.f["mixins"]}
             I.require(not changed(before, after, allow), "register_never_changes_a_parent_or_sibling")
             d = target.f["_defns"]
-            I.require(d.get(SigTok("s1")) is fn, "new_method_holds_the_signature")
+            I.require(d.get(the_sig) is fn, "new_method_holds_the_signature")
+            want_own = dict(own_before)
             if old_holder is not None:
-                I.require(d.get(SigTok("s1", -1)) is old_holder, "replaced_method_is_pushed_down_with_a_lower_tiebreak")
+                I.require(d.get(SigTok(the_sig.name, -1)) is old_holder, "replaced_method_is_pushed_down_with_a_lower_tiebreak")
+                want_own[SigTok(the_sig.name, -1)] = old_holder
+            want_own[the_sig] = fn
+            # the node's own table gains the new method (and the pushed-down previous holder of its OWN table) and nothing
+            # else: a parent's method is never copied into the child's table (C16: changes to a parent stay visible /
+            # the child's changes stay its own)
+            I.require(set(d.keys()) == set(want_own.keys()) and all(d[k_] is v_ for k_, v_ in want_own.items()), "own_table_changes_by_exactly_the_new_method_and_its_pushed_down_predecessor")
 
-        return w, thunk, {"graph": gname}
+        return w, thunk, {"graph": gname, "which": which}
 
     return build
 
 
-def t_compile(gname, mode="post"):
+def t_compile(gname, mode="post", which="last"):
     """compile(): new table filled from defns with every method adapted FOR SELF, direct non-linked mixins locked,
-    _compiled assigned last (C05, C08, C16)."""
+    _compiled assigned last (C05, C08, C16).  which="root": the build of a PARENT (its first use) touches no child,
+    linked or not, built or not (C20: using the parent is not a change of any method set)."""
 
     def build():
         w = CoreWorld()
@@ -449,7 +509,17 @@ def t_compile(gname, mode="post"):
             w.reset()
             objs = build_graph(I, w, gname, locked=False)
             labels = list(objs)
-            target = objs[labels[-1]]
+            target = objs[labels[-1]] if which == "last" else objs[labels[0]]
+            if which == "root":
+                target.f["_compiled"] = False
+                for o_ in objs.values():
+                    if o_ is not target:  # the children are in use: they have a table and a generated entry point
+                        m_ = MapObj(w, "old", None)
+                        m_.registered = [(s_, Tok("adapted", orig=f_, ovld=o_)) for s_, f_ in spec_defns(o_).items()]
+                        d_ = DispatchFn(o_)
+                        d_.attrs.update(__code__=("GENERATED", 0), map=m_)
+                        o_.f.update(map=m_, dispatch=d_, _compiled=True)
+                w.maps_created.clear()
             before = snapshot_all(w)
             I.call_repo("core:Ovld.compile", [target], {})
             after = snapshot_all(w)
@@ -468,7 +538,7 @@ def t_compile(gname, mode="post"):
             disp = target.f.get("dispatch")
             I.require(isinstance(disp, DispatchFn) and disp.attrs.get("map") is m and isinstance(disp.attrs.get("__code__"), tuple), "entry_point_swapped_to_the_generated_code_over_the_new_table")
 
-        return w, thunk, {"graph": gname}
+        return w, thunk, {"graph": gname, "which": which}
 
     return build
 
@@ -518,9 +588,11 @@ def t_update_propagates(gname, compiled_parent):
             kids = [o for o in objs.values() if o is not root]
             for k in kids:
                 k.f["_compiled"] = True
-                k.f["map"] = Tok("old_map")
+                k.f["map"] = MapObj(w, "old", None)
             if compiled_parent:
-                root.f["map"] = Tok("old_map")
+                root.f["map"] = MapObj(w, "old", None)
+            olds = list(w.maps_created)
+            w.maps_created.clear()
             fn = user_fn("newfn", SigTok("s7"))
             I.call_repo("core:Ovld._register", [root, fn, 0], {})
 
@@ -533,14 +605,14 @@ def t_update_propagates(gname, compiled_parent):
 
             for d in linked_desc(root):
                 m = d.f.get("map")
-                ok = isinstance(m, MapObj) and [(s, f.attrs.get("orig")) for s, f in m.registered] == list(spec_defns(d).items())
+                ok = isinstance(m, MapObj) and not any(m is o_ for o_ in olds) and [(s, f.attrs.get("orig")) for s, f in m.registered] == list(spec_defns(d).items())
                 I.require(bool(ok), f"linked_descendant_in_use_is_rebuilt_over_the_new_method_set[{d.label}]")
             for o in objs.values():
                 if o is not root and o not in linked_desc(root):
-                    I.require(not isinstance(o.f.get("map"), MapObj), f"non_linked_node_is_not_rebuilt[{o.label}]")
+                    I.require(any(o.f.get("map") is o_ for o_ in olds), f"non_linked_node_is_not_rebuilt[{o.label}]")
             if compiled_parent:
                 m = root.f.get("map")
-                I.require(isinstance(m, MapObj) and [(s, f.attrs.get("orig")) for s, f in m.registered] == list(spec_defns(root).items()), "changed_function_in_use_is_rebuilt")
+                I.require(isinstance(m, MapObj) and not any(m is o_ for o_ in olds) and [(s, f.attrs.get("orig")) for s, f in m.registered] == list(spec_defns(root).items()), "changed_function_in_use_is_rebuilt")
 
         return w, thunk, {"graph": gname, "compiled_parent": compiled_parent}
 
@@ -557,7 +629,8 @@ def t_add_mixins_rebuilds():
         def thunk(I):
             w.reset()
             o = mk_ovld(w, "o", [], False, compiled=True, locked=False, defns={SigTok("s1"): user_fn("o_s1", SigTok("s1"))}, I=I)
-            o.f["map"] = Tok("old_map")
+            o.f["map"] = MapObj(w, "old", None)
+            w.maps_created.clear()
             other = mk_ovld(w, "other", [], False, compiled=False, locked=False, defns={SigTok("s2"): user_fn("x_s2", SigTok("s2"))}, I=I)
             I.call_repo("core:Ovld.add_mixins", [o, other], {})
             m = o.f.get("map")
@@ -578,8 +651,10 @@ def safe(w, o):
     return routes_through_build or complete
 
 
-def t_build_failure(callee, k, first_build):
-    """C18: if the build fails because callee #k raises, later calls fail again or see the complete method set."""
+def t_build_failure(callee, k, first_build, clause="safe"):
+    """C18: if the build fails because callee #k raises, later calls fail again or see the complete method set.
+    clause="loud" (failures before any method is adapted): the table in service is complete or EMPTY - every later call
+    fails; it never keeps answering from a table that lacks a registered method."""
 
     def build():
         w = CoreWorld(fail_at=(callee, k))
@@ -594,7 +669,8 @@ def t_build_failure(callee, k, first_build):
             else:
                 old = MapObj(w, "old", None)
                 w.maps_created.clear()
-                old.registered = [(s, Tok("adapted", orig=f, ovld=o)) for s, f in spec_defns(o).items()]
+                # rebuild after a change: the table in service was built before the last method was registered
+                old.registered = [(s, Tok("adapted", orig=f, ovld=o)) for s, f in list(spec_defns(o).items())[:-1]]
                 d = DispatchFn(o)
                 d.attrs.update(__code__=("GENERATED", 0), map=old)
                 o.f.update(map=old, dispatch=d)
@@ -604,9 +680,68 @@ def t_build_failure(callee, k, first_build):
                 return
             except PyRaise as e:
                 exc = e.exc
-            I.require(safe(w, o), f"safe_after_failure_in[{callee}#{k}]")
+            if clause == "loud":
+                m_ = o.f.get("map")
+                empty = isinstance(m_, MapObj) and not m_.registered  # the generated entry point reads OVLD.map at call time
+                I.require(safe(w, o) or empty, f"later_calls_fail_or_see_every_registered_method_after_failure_in[{callee}#{k}]")
+            else:
+                I.require(safe(w, o), f"safe_after_failure_in[{callee}#{k}]")
 
-        return w, thunk, {"callee": callee, "k": k, "first_build": first_build}
+        return w, thunk, {"callee": callee, "k": k, "first_build": first_build, "clause": clause}
+
+    return build
+
+
+def t_update_failure(graph):
+    """C18 'rebuild after a change' on a linked family: an invalid method is registered on the root of a family whose
+    members are all in use; `_update` fails.  Every OTHER member must still be safe: it routes through the build, or
+    serves a table complete for its methods, or serves a table complete for its methods minus the offending one.
+    (The root's own state after a failed rebuild is t_build_failure / finding F-halfbuilt.)"""
+
+    def build():
+        w = CoreWorld()
+        install_common(w)
+
+        def thunk(I):
+            w.reset()
+            objs = build_graph(I, w, graph, locked=False, compiled=True)
+            root = objs[list(objs)[0]]
+
+            def linked_desc(o):
+                out = []
+                for c in o.f["children"]:
+                    out.append(c)
+                    out += linked_desc(c)
+                return out
+
+            for o in objs.values():
+                m = MapObj(w, "old", None)
+                m.registered = [(s, Tok("adapted", orig=f, ovld=o)) for s, f in spec_defns(o).items()]
+                d = DispatchFn(o)
+                d.attrs.update(__code__=("GENERATED", 0), map=m)
+                o.f.update(map=m, dispatch=d, _compiled=True)
+            w.maps_created.clear()
+            sbad = SigTok("sbad")
+            bad = user_fn("bad", sbad)
+            w.bad_fn = bad
+            root.f["_defns"][sbad] = bad
+            try:
+                I.call_repo("core:Ovld._update", [root], {})
+                I.require(False, "update_with_an_invalid_method_raises")
+            except PyRaise:
+                pass
+            finally:
+                w.bad_fn = None
+            for o in linked_desc(root):
+                m = o.f.get("map")
+                disp = o.f.get("dispatch")
+                got = [(s_, f.attrs.get("orig")) for s_, f in m.registered] if isinstance(m, MapObj) else None
+                full = list(spec_defns(o).items())
+                minus = [(s_, f) for s_, f in full if f is not bad]
+                routes = not isinstance(disp, DispatchFn) or disp.attrs.get("__code__") == "TRAMPOLINE"
+                I.require(routes or (got in (full, minus) and disp.attrs.get("map") is m), f"linked_member_is_not_left_half_built[{o.label}]")
+
+        return w, thunk, {"graph": graph}
 
     return build
 
@@ -748,5 +883,291 @@ def t_recovery(first_build, where="adapt"):
             I.require(safe(w, o), "works_normally_after_the_offending_method_is_removed")
 
         return w, thunk, {"first_build": first_build, "where": where}
+
+    return build
+
+
+# --------------------------------------------------------------------------------------------------
+# class bodies (C17): ovld_cls_dict.__setitem__ / OvldMC.__prepare__ / extend_super / to_ovld / is_ovld / ovld on the heap
+
+
+class ClsDictObj(SymObj):
+    """An ovld_cls_dict: the dict part is concrete (attribute names are concrete strings), values are heap objects."""
+
+    concrete_identity = True
+
+    def __init__(self, bases):
+        self.d = {}
+        self.f = {"_bases": bases}
+
+    def py_getattr(self, I, name):
+        if name in self.f:
+            return self.f[name]
+        if f"ovld_cls_dict.{name}" in source.module("core").functions:
+            return RepoFn(f"core:ovld_cls_dict.{name}", bound=self)
+        raise OutOfSubset(f"ovld_cls_dict.{name}")
+
+    def py_setattr(self, I, name, v):
+        self.f[name] = v
+
+    def py_contains(self, I, k):
+        return k in self.d
+
+    def py_getitem(self, I, k):
+        if k in self.d:
+            return self.d[k]
+        raise PyRaise(ExcV("KeyError"))
+
+    def py_setitem(self, I, k, v):  # the class-body `def` statement: goes through the real __setitem__
+        return I.call_repo("core:ovld_cls_dict.__setitem__", [self, k, v], {})
+
+
+class DictSuper(SymObj):
+    def __init__(self, obj):
+        self.obj = obj
+
+    def py_getattr(self, I, name):
+        if name == "__setitem__":
+            return Builtin("dict.__setitem__", lambda I, k, v: self.obj.d.__setitem__(k, v))
+        raise OutOfSubset(f"super().{name}")
+
+
+class BaseCls(Tok):
+    """A base class: attribute name -> the function object stored in the class (`attrs`) or inherited by it
+    (`inherited`): getattr / dir see both, vars / __dict__ only the former."""
+
+    def __init__(self, label, inherited=None, **attrs):
+        super().__init__(label, **attrs)
+        self.inherited = dict(inherited or {})
+
+    def py_getattr(self, I, name):
+        if name in self.attrs:
+            return self.attrs[name]
+        if name in self.inherited:
+            return self.inherited[name]
+        if name == "__dict__":
+            return dict(self.attrs)
+        raise PyRaise(ExcV("AttributeError", tag=name))
+
+    def py_hasattr(self, I, name):
+        return name in self.attrs or name in self.inherited
+
+
+class ClsWorld(CoreWorld):
+    inline_prefixes = CoreWorld.inline_prefixes + ("core:ovld_cls_dict.", "core:OvldMC.", "core:to_ovld", "core:is_ovld", "core:ovld", "core:extend_super")
+
+    def __init__(self):
+        super().__init__()
+        self._globals.pop(("core", "to_ovld"), None)  # the real to_ovld / is_ovld / ovld / extend_super bodies are executed
+        self.set_global("core", "bootstrap_dispatch", Builtin("bootstrap_dispatch", self.bootstrap))
+        self.set_global("core", "ovld_cls_dict", Builtin("ovld_cls_dict", lambda I, bases: ClsDictObj(bases)))
+        from pyvc.world import ModuleV
+
+        self.set_global("core", "inspect", ModuleV("inspect", {"isfunction": Builtin("isfunction", lambda I, x: isinstance(x, Tok) and x.label.startswith("fn:"))}))
+        self.set_global("core", "dir", Builtin("dir", lambda I, b: sorted(set(b.attrs) | set(b.inherited)) if isinstance(b, BaseCls) else []))
+        self.set_global("core", "vars", Builtin("vars", lambda I, b: dict(b.attrs) if isinstance(b, BaseCls) else {}))
+
+    def bootstrap(self, I, ov, name=None):
+        d = DispatchFn(ov)
+        d.attrs["__ovld__"] = ov  # core.py: dispatch.__ovld__ = ov
+        return d
+
+    def isinstance_(self, I, x, cls):
+        if isinstance(cls, Builtin) and cls.name == "Ovld":
+            return isinstance(x, OvldObj)
+        return super().isinstance_(I, x, cls)
+
+    def super_of(self, I, obj, qual):
+        if isinstance(obj, ClsDictObj):
+            return DictSuper(obj)
+        return super().super_of(I, obj, qual)
+
+
+def method_set(o):
+    """The user methods an Ovld dispatches over, by identity, in table order (DESIGN A.3)."""
+    return [f for _, f in spec_defns(o).items()]
+
+
+def _class_with(w, I, label, fns):
+    """An existing class whose attribute `perform` is an overloaded method over fns (made by the real constructor)."""
+    o = mk_ovld(w, f"{label}.perform", [], False, compiled=False, locked=False, defns={f.attrs["sig"]: f for f in fns}, I=I)
+    o.f["dispatch"] = w.bootstrap(I, o, "perform")
+    return BaseCls(f"class:{label}", perform=o.f["dispatch"]), o
+
+
+def t_cls_body(scenario):
+    """C17: what a class body leaves in its namespace.  Executes the real ovld_cls_dict.__setitem__ (and, for
+    'prepare', OvldMC.__prepare__) together with to_ovld / is_ovld / ovld / extend_super / Ovld.copy / add_mixins /
+    register; adapting and generated code stay behind their contracts.
+      same_name      two plain defs of one name in a body without bases: one function over both
+      extend_one     base B has perform{b1,b2}; body: @extend_super def perform(s1); def perform(s2)
+      extend_two     bases B1, B2 each have perform; body: @extend_super def perform
+      shadow         base B has perform; body: plain def perform (no extend_super): the body's definition alone
+      extend_twice   base B has perform; body: two definitions both marked @extend_super
+      prepare_two    __prepare__ for bases (B1, B2) where B2's perform is marked extend_super; empty body
+      prepare_deep   the same with both bases only inheriting the method from their own bases
+    Posts: the stored entry is the user-facing function of an Ovld whose method set is exactly the expected one, in the
+    expected order; no Ovld of any base changes (the only permitted effect is nothing at all: nothing is compiled)."""
+
+    def build():
+        w = ClsWorld()
+        install_common(w)
+        w.inline("core:Ovld._set_attrs_from")  # the real body: names the function after its first method and creates the user-facing function
+
+        def thunk(I):
+            w.reset()
+            s = {n: SigTok(n) for n in ("b1", "b2", "c1", "s1", "s2")}
+            fn = {n: user_fn(n, s[n]) for n in s}
+            for f_ in fn.values():
+                f_.label = "fn:" + f_.label.split(":")[-1]
+            bases, base_ovlds = [], []
+            if scenario in ("extend_one", "shadow"):
+                B, ob = _class_with(w, I, "B", [fn["b1"], fn["b2"]])
+                bases, base_ovlds = [B], [ob]
+            elif scenario == "extend_twice":
+                B, ob = _class_with(w, I, "B", [fn["b1"], fn["b2"]])
+                bases, base_ovlds = [B], [ob]
+            elif scenario in ("extend_two", "prepare_two", "prepare_deep"):
+                B1, o1 = _class_with(w, I, "B1", [fn["b1"]])
+                B2, o2 = _class_with(w, I, "B2", [fn["c1"]])
+                if scenario.startswith("prepare"):
+                    o2.f["dispatch"].attrs["_extend_super"] = True
+                if scenario == "prepare_deep":  # neither direct base redefines the method: both inherit it
+                    B1 = BaseCls("class:B1plus", inherited=dict(B1.attrs))
+                    B2 = BaseCls("class:B2plus", inherited=dict(B2.attrs))
+                bases, base_ovlds = [B1, B2], [o1, o2]
+            before = {o.label: o.snapshot() for o in base_ovlds}
+            n_before = len(w.ovlds)
+            try:
+                body(I, bases, base_ovlds, fn, before)
+            except PyRaise as e:
+                I.require(False, f"class_body_raises_no_exception[{e.exc.cls}:{getattr(e.exc, 'tag', None)}]")
+
+        def body(I, bases, base_ovlds, fn, before):
+            if scenario.startswith("prepare"):
+                d = I.call_repo("core:OvldMC.__prepare__", [Tok("OvldMC"), "Sub", tuple(bases)], {})
+                want = [fn["b1"], fn["c1"]]
+            else:
+                d = ClsDictObj(tuple(bases))
+                if scenario == "same_name":
+                    d.py_setitem(I, "perform", fn["s1"])
+                    d.py_setitem(I, "perform", fn["s2"])
+                    want = [fn["s1"], fn["s2"]]
+                elif scenario == "shadow":
+                    d.py_setitem(I, "perform", fn["s1"])
+                    want = None
+                else:
+                    marked = I.call_repo("core:extend_super", [fn["s1"]], {})
+                    d.py_setitem(I, "perform", marked)
+                    if scenario == "extend_one":
+                        d.py_setitem(I, "perform", fn["s2"])
+                        want = [fn["b1"], fn["b2"], fn["s1"], fn["s2"]]
+                    elif scenario == "extend_twice":
+                        d.py_setitem(I, "perform", I.call_repo("core:extend_super", [fn["s2"]], {}))
+                        want = [fn["b1"], fn["b2"], fn["s1"], fn["s2"]]
+                    else:
+                        want = [fn["b1"], fn["c1"], fn["s1"]]
+            got = d.d.get("perform")
+            if want is None:
+                I.require(got is fn["s1"], "plain_definition_without_extend_super_is_stored_as_is")
+            else:
+                ok = isinstance(got, DispatchFn) and isinstance(got.attrs.get("__ovld__"), OvldObj) and got.attrs["__ovld__"].f.get("dispatch") is got
+                I.require(ok, "namespace_entry_is_the_user_facing_function_of_one_overloaded_method")
+                if ok:
+                    o = got.attrs["__ovld__"]
+                    ms = method_set(o)
+                    I.require(len(ms) == len(want) and all(a is b for a, b in zip(ms, want)), "method_set_is_inherited_methods_then_own_definitions")
+                    I.require(not any(o is b for b in base_ovlds), "the_class_gets_its_own_overloaded_method_not_a_base_class_s")
+            after = {o.label: o.snapshot() for o in base_ovlds}
+            I.require(after == before, "no_base_class_method_is_modified")
+
+        return w, thunk, {"scenario": scenario}
+
+    return build
+CLS_SCENARIOS = ("same_name", "extend_one", "extend_twice", "extend_two", "shadow", "prepare_two", "prepare_deep")
+
+
+def t_copy_variant(gname, op, linkback):
+    """C16: copy() / variant(fn) on the last node of a derivation graph create a FRESH node whose effective table is the
+    parent's (plus the new method for variant); nothing else changes, except that a linked copy is recorded among the
+    parent's children."""
+
+    def build():
+        w = CoreWorld()
+        install_common(w)
+
+        def thunk(I):
+            w.reset()
+            objs = build_graph(I, w, gname, locked=False)
+            parent = objs[list(objs)[-1]]
+            before = snapshot_all(w)
+            known = list(w.ovlds)
+            kids_before = list(parent.f["children"])
+            want_parent = dict(spec_defns(parent))
+            if op == "copy":
+                c = I.call_repo("core:Ovld.copy", [parent], {"linkback": linkback})
+                fn = None
+            else:
+                fn = user_fn("vfn", SigTok("s8"))
+                c = I.call_repo("core:Ovld.variant", [parent, fn], {"linkback": linkback})
+            I.require(isinstance(c, OvldObj) and not any(c is k for k in known), "result_is_a_fresh_function")
+            if not isinstance(c, OvldObj):
+                return
+            after = snapshot_all(w)
+            allow = {(c.label, "*"), (parent.label, "children")}
+            I.require(not changed(before, {k: v for k, v in after.items() if k in before}, allow), "nothing_but_the_parent_s_child_list_changes")
+            I.require(parent.f["children"] == (kids_before + [c] if linkback else kids_before), "linked_copy_is_recorded_as_a_child_of_the_parent_only_if_linkback")
+            I.require(len(c.f["mixins"]) == 1 and c.f["mixins"][0] is parent, "the_copy_inherits_from_exactly_the_parent")
+            own = c.f["_defns"]
+            I.require((own == {}) if fn is None else (list(own.values()) == [fn] and len(own) == 1), "own_table_holds_exactly_the_new_method" if fn else "own_table_is_empty")
+            want = dict(want_parent)
+            if fn is not None:
+                want[SigTok("s8")] = fn
+            got = spec_defns(c)
+            I.require(list(got.keys()) == list(want.keys()) and all(got[k] is want[k] for k in want), "effective_table_is_the_parent_s_methods_plus_the_new_one")
+            I.require(dict(spec_defns(parent)) == want_parent, "parent_s_effective_table_unchanged")
+            I.require(I.truth(c.f["_compiled"]) is False and I.truth(c.f["_locked"]) is False, "the_copy_is_neither_built_nor_locked")
+
+        return w, thunk, {"graph": gname, "op": op, "linkback": linkback}
+
+    return build
+
+
+def t_unregister_frame(gname):
+    """unregister(fn) on the last node: its OWN table loses exactly the entries that hold fn (also pushed-down ones),
+    nothing is removed from a parent (C16), the node is rebuilt if in use (C05)."""
+
+    def build():
+        w = CoreWorld()
+        install_common(w)
+
+        def thunk(I):
+            w.reset()
+            objs = build_graph(I, w, gname, locked=False)
+            target = objs[list(objs)[-1]]
+            f1 = user_fn("gone", SigTok("s5"))
+            keep = dict(target.f["_defns"])
+            target.f["_defns"] = {**keep, SigTok("s5"): f1, SigTok("s5", -1): f1}
+            before = snapshot_all(w)
+            parents_before = {o.label: dict(spec_defns(o)) for o in objs.values() if o is not target}
+            I.call_repo("core:Ovld.unregister", [target, f1], {})
+            after = snapshot_all(w)
+
+            def descendants(o):
+                out = []
+                for c in o.f["children"]:
+                    out.append(c)
+                    out += descendants(c)
+                return out
+
+            allow = {(target.label, "*")} | {(d.label, "*") for d in descendants(target)} | {(m_.label, "_locked") for n in [target] + descendants(target) for m_ in n.f["mixins"]}
+            I.require(not changed(before, after, allow), "unregister_never_changes_a_parent_or_sibling")
+            d = target.f["_defns"]
+            I.require(isinstance(d, dict) and list(d.keys()) == list(keep.keys()) and all(d[k] is keep[k] for k in keep), "own_table_loses_exactly_the_entries_of_the_removed_method")
+            for o in objs.values():
+                if o is not target:
+                    I.require(dict(spec_defns(o)) == parents_before[o.label], f"effective_table_of_[{o.label}]_unchanged")
+
+        return w, thunk, {"graph": gname}
 
     return build
